@@ -1,0 +1,49 @@
+//go:build verif
+
+// Contracts for package entry (comment-only; read by /verif/govc, never compiled into olric).
+//
+// Wire/in-memory layout of an entry starting at offset o of a byte array m:
+//   klen(1) | key(klen) | ttl(8) | timestamp(8) | lastAccess(8) | vlen(4) | value(vlen)
+
+package entry
+
+//@ devirt storage.Entry => *Entry
+
+// encodes: the n bytes of m at o are the encoding of (key, ttl, ts, la, value v[vo..vo+vn)).
+//@ pure func encodes(m ByteArr, o int, n int, key string, ttl int64, ts int64, la int64, v ByteArr, vo int, vn int) bool =
+//@     n == 29 + strlen(key) + vn && m[o] == strlen(key) &&
+//@     (forall i int :: 0 <= i && i < strlen(key) ==> m[o+1+i] == strbytes(key)[i]) &&
+//@     be64(m, o+1+strlen(key)) == uint64(ttl) && be64(m, o+9+strlen(key)) == uint64(ts) && be64(m, o+17+strlen(key)) == uint64(la) &&
+//@     be32(m, o+25+strlen(key)) == vn &&
+//@     (forall i int :: 0 <= i && i < vn ==> m[o+29+strlen(key)+i] == v[vo+i])
+
+// wfAt: the n bytes of m at o are a complete entry (header present, lengths consistent).
+//@ pure func wfAt(m ByteArr, o int, n int) bool = n >= 29 && n == 29 + m[o] + be32(m, o+25+m[o])
+
+//@ func (e *Entry) Encode() []byte
+//@   props C17 C04 C18
+//@   requires #recv: e != nil
+//@   requires #klen_fits [C17]: len(e.key) < 256
+//@   requires #vlen_fits [C17]: len(e.value) < 4294967296
+//@   ensures  #fresh [C18]: fresh(result) && off(result) == 0
+//@   ensures  #layout [C17 C04]: encodes(elems(result), 0, len(result), e.key, e.ttl, e.timestamp, e.lastAccess, elems(e.value), off(e.value), len(e.value))
+//@   modifies nothing
+
+//@ func (e *Entry) Decode(buf []byte)
+//@   props C17 C16
+//@   requires #recv: e != nil
+//@   requires #wf [C16 C17]: len(buf) >= 29 && len(buf) >= 29 + buf[0] + be32(buf, 25+buf[0])
+//@   ensures  #key:   e.key == bstrAt(elems(buf), off(buf)+1, buf[0])
+//@   ensures  #ttl:   e.ttl == int64(be64(buf, 1+buf[0]))
+//@   ensures  #ts:    e.timestamp == int64(be64(buf, 9+buf[0]))
+//@   ensures  #la:    e.lastAccess == int64(be64(buf, 17+buf[0]))
+//@   ensures  #value: base(e.value) == base(buf) && off(e.value) == off(buf)+29+buf[0] && len(e.value) == be32(buf, 25+buf[0])
+//@   modifies e.key, e.ttl, e.timestamp, e.lastAccess, e.value
+
+// Round trip (C17): whatever Encode lays out, Decode's preconditions hold for it and Decode reads back
+// exactly the encoded fields (key as a string, 64-bit fields reinterpreted, value bytes in place).
+//@ lemma #entry_roundtrip [C17]: forall m ByteArr, o int, n int, key string, ttl int64, ts int64, la int64, v ByteArr, vo int, vn int ::
+//@     encodes(m, o, n, key, ttl, ts, la, v, vo, vn) && strlen(key) < 256 && 0 <= vn && vn < 4294967296 ==>
+//@       wfAt(m, o, n) && bstrAt(m, o+1, m[o]) == key && int64(be64(m, o+1+m[o])) == ttl && int64(be64(m, o+9+m[o])) == ts &&
+//@       int64(be64(m, o+17+m[o])) == la && be32(m, o+25+m[o]) == vn &&
+//@       (forall i int :: 0 <= i && i < vn ==> m[o+29+m[o]+i] == v[vo+i])
